@@ -1,6 +1,8 @@
 (* C16 — Durations, offsets, start and end times are arithmetically consistent.
-   Durations are exact ticks of 1/8 s (Z), instants exact microseconds (Z): binary64
-   rounding is not modelled (DESIGN.md section 10). *)
+   Durations, offsets and instants are whole microseconds (Z): float(text) is an oracle that
+   supplies the value in microseconds, so the theorems are exact for decimal texts with at
+   most six fractional digits; binary64 rounding below that is not modelled (DESIGN.md
+   section 10). *)
 From Coq Require Import List Bool ZArith.
 Import ListNotations.
 From Mos Require Import Str Xml Outcome Elements.
@@ -77,7 +79,7 @@ Theorem C16_start :
   match (match payload_of (so_xml s) with Some pl => find t_StoryStarted (kids_of pl) | None => None end) with
   | Some e => time_of o e
   | None => match so_start s, so_offset s with
-            | Some p, Some off => AVal (p + ticks_us off)
+            | Some p, Some off => AVal (p + off)
             | _, _ => ANone
             end
   end.
@@ -90,7 +92,7 @@ Theorem C16_end :
   match (match payload_of (so_xml s) with Some pl => find t_StoryEnded (kids_of pl) | None => None end) with
   | Some e => time_of o e
   | None => match so_start_time o s, story_duration o (so_xml s) with
-            | AVal st, AVal d => AVal (st + ticks_us d)
+            | AVal st, AVal d => AVal (st + d)
             | AErr e, _ => AErr e
             | AVal _, AErr e => AErr e
             | _, _ => ANone
